@@ -74,6 +74,24 @@ func Bubble(t *testing.T, f func()) (harness string) {
 	return harness
 }
 
+// verbosity is the gRPC log verbosity of the current run (0 or 99). Plain
+// memory: a worker executes one run at a time and sets it before the run's
+// first task exists. Race-detector workers never raise it: formatting log
+// arguments goes through fmt's pools, which would act as happens-before edges
+// the program does not have.
+var verbosity int
+
+//go:norace
+func SetVerbose(on bool) {
+	verbosity = 0
+	if on && !kern.RaceBuild {
+		verbosity = 99
+	}
+}
+
+//go:norace
+func VerboseLogs(l int) bool { return l <= verbosity }
+
 // FuncOfStack extracts the innermost function of the code under test from a
 // stack trace (for panic / deadlock signatures): function names, not lines.
 func FuncOfStack(stack string, pkgHints ...string) string {
